@@ -145,6 +145,19 @@ class Gen:
                 p = r.randint(0, n); neg = r.random() < 0.5
                 d = r.randint(0, p) if neg else r.randint(0, n - p)
                 lines.append("J %d %d %d %d" % (g, p, 1 if neg else 0, d))
+            elif x < 0.965:
+                # subset of a subset of the view, then toDataset
+                q = r.choice([k for k in range(NREG) if k != g])
+                i1 = [r.randrange(n) for _ in range(r.randint(1, n + 2))]
+                if self.prop == "C12": i1 = r.sample(range(n), r.randint(1, n))
+                i2 = [r.randrange(len(i1)) for _ in range(r.randint(1, len(i1) + 2))]
+                if self.prop == "C12": i2 = r.sample(range(len(i1)), r.randint(1, len(i1)))
+                bs = r.choice([0, 1, 2, 3, len(i2), len(i2) + 1])
+                lines.append("W %d %d %d %d %s %s" % (g, q, bs, len(i1), " ".join(map(str, i1)), " ".join(map(str, i2))))
+                ni = len(i2)
+                if bs == 0 or bs > ni: sizes[q] = [ni]
+                else:
+                    b = ni // bs + (1 if ni % bs else 0); sizes[q] = [bs] * (b - 1) + [ni - bs * (b - 1)]
             elif x < 0.98:
                 q = r.choice([k for k in range(NREG) if k != g])
                 idx = [r.randrange(n) for _ in range(r.randint(1, n + 2))]
@@ -274,6 +287,15 @@ def monitor(case, iout, prop):
                 e = flat(old[r]);
                 want = [(x[0], 1 if x[1] == on else 0) for x in e if x[1] in (z, on)]
                 if "R%d" % q in d and z != on and ms(flat(R[q])) != ms(want): fail(i, "binarySubProblem: wrong elements/labels")
+                labs = [x[1] for x in e]
+                sortedb = all(b and len(set(x[1] for x in b)) == 1 for b in old[r]) and labs == sorted(labs)
+                if sortedb and z != on:
+                    # documented precondition holds (class-sorted batches): exact result
+                    if z in labs and on in labs:
+                        if "R%d" % q not in d: fail(i, "binarySubProblem: no result although both classes are present")
+                        elif flat(R[q]) != want: fail(i, "binarySubProblem: not exactly the elements of the two classes in order, relabelled")
+                        elif R[q] != [[(x[0], 1 if x[1] == on else 0) for x in b] for b in old[r] if b[0][1] in (z, on)]:
+                            fail(i, "binarySubProblem: result batches are not the batches of the two classes")
             elif c == "E":
                 r = a[0]; e = flat(R[r])[a[1]]
                 if d.get("elem") != "%d:%d" % e or d.get("view") != "%d:%d" % e: fail(i, "element(i)/view[i] != i-th element of the batch sequence")
@@ -287,6 +309,13 @@ def monitor(case, iout, prop):
                 r, q, bs = a[0], a[1], a[2]; e = flat(old[r])
                 if flat(R[q]) != [e[k] for k in a[3:]]: fail(i, "toDataset(subset(view)) holds other elements")
                 if bs and any(len(b) > bs for b in R[q]): fail(i, "batch larger than requested")
+            elif c == "W":
+                r, q, bs, n1 = a[0], a[1], a[2], a[3]; e = flat(old[r]); i1 = a[4:4 + n1]; i2 = a[4 + n1:]
+                comp = [i1[j] for j in i2]
+                if flat(R[q]) != [e[k] for k in comp]: fail(i, "toDataset(subset(subset(view))) holds other elements than the composed indices select")
+                if d.get("vidx") != ",".join(map(str, comp)): fail(i, "view index() of a subset of a subset is not the composed index")
+                if bs and any(len(b) > bs for b in R[q]): fail(i, "batch larger than requested")
+                if any(not b for b in R[q]): fail(i, "empty batch")
             elif c == "F":
                 r = a[0]
                 if flat(R[r]) != [(x[0] + a[1], x[1]) for x in flat(old[r])] or [len(b) for b in R[r]] != [len(b) for b in old[r]]:
@@ -305,6 +334,11 @@ def monitor(case, iout, prop):
                     for cl in set(x[1] for x in e):
                         cc = [sum(1 for x in flat(v) if x[1] == cl) for v in vals]
                         if max(cc) - min(cc) > 1: fail(i, "class %d counts per fold differ by more than one: %s" % (cl, cc)); break
+                        # the dealing continues across class borders: the n_c mod k extra members of class cl go to the
+                        # folds off, off+1, ... (mod k), off = number of members of the smaller classes
+                        ncl = sum(1 for x in e if x[1] == cl); off = sum(1 for x in e if x[1] < cl)
+                        exp = [ncl // k + (1 if any((off + j) % k == p for j in range(ncl % k)) else 0) for p in range(k)]
+                        if cc != exp: fail(i, "class %d counts per fold %s are not the round-robin counts %s" % (cl, cc, exp)); break
                 if c == "CI":
                     idx = a[3:]
                     for pos, x in enumerate(e):
@@ -376,7 +410,7 @@ def main():
         if ck.violations: break
     ck.cov["evaluations"] = total_eval
     ck.cov["distinct_nontrivial"] = len(distinct)
-    ck.cov["rule"] = "random operation histories over 4 dataset registers of LabeledData<RealVector|unsigned|CompressedRealVector, unsigned> (create, repartition, splitBatch, splice, append, reorder, shuffle, indexedSubset, splitAtElement, repartitionByClass, binarySubProblem, element/iterator access, view->dataset, transform%s); element counts 1..17 (40 thorough) aimed at n mod max in {0,1,max-1}, labels with absent classes; distinct = distinct (type, history)" % (", all CV fold constructors" if PROP == "C12" else "")
+    ck.cov["rule"] = "random operation histories over 4 dataset registers of LabeledData<RealVector|unsigned|CompressedRealVector, unsigned> (create, repartition, splitBatch, splice, append, reorder, shuffle, indexedSubset, splitAtElement, repartitionByClass, binarySubProblem, element/iterator access, view->dataset, view subset of subset->dataset, transform%s); element counts 1..17 (40 thorough) aimed at n mod max in {0,1,max-1}, labels with absent classes; distinct = distinct (type, history)" % (", all CV fold constructors" if PROP == "C12" else "")
     ck.cov["samples"] = samples
     ck.notes["op_mix"] = opmix
     ck.finish()
